@@ -1,4 +1,5 @@
 (* name -> extracted machine *)
 let machines : (string * Base.machine) list = [
   "event", Event.machine;
+  "mutex", Mutex.machine;
 ]
